@@ -1,6 +1,7 @@
 from __future__ import annotations
 
 import os
+import threading
 from typing import Any
 
 import duckdb
@@ -67,6 +68,8 @@ class FakeSnow:
         self.nop_regexes = nop_regexes
 
         self.duck_conn = duckdb.connect(database=":memory:")
+        # connect() checks for the database/schema and then creates them: one connect at a time
+        self._connect_lock = threading.Lock()
 
         # create a "global" database for storing objects which span databases.
         self.duck_conn.execute(f"ATTACH IF NOT EXISTS ':memory:' AS {GLOBAL_DATABASE_NAME}")
@@ -80,6 +83,10 @@ class FakeSnow:
         # https://github.com/duckdb/duckdb/blob/18254ec/tools/pythonpkg/src/pyconnection.cpp#L1440
         # and to make connections thread-safe see
         # https://duckdb.org/docs/api/python/overview.html#using-connections-in-parallel-python-programs
+        with self._connect_lock:
+            return self._connect(database, schema, **kwargs)
+
+    def _connect(self, database: str | None, schema: str | None, **kwargs: Any) -> fakes.FakeSnowflakeConnection:
         return fakes.FakeSnowflakeConnection(
             self.duck_conn.cursor(),
             database,
